@@ -370,7 +370,7 @@ def parse_trace(text):
         c = l[0]
         if c == 'I':
             f = l.split()
-            if len(f) < 6 or ' | k ' not in l:
+            if len(f) < 6 or ' | d ' not in l:
                 continue                               # cut short by a crash
             cur = Step(); cur.iline = l; cur.i = int(f[1]); cur.op = f[4]; cur.events = ev; ev = []
             cur.stack = cur.frames = None; cur.live = None; cur.v = []
@@ -453,7 +453,7 @@ def compare(steps, mout, vm_error):
                 if rind != mind: bad = 'object %d in-degree real=%d model=%d' % (o, rind, mind); break
         if bad is None and not (last and vm_error) and (ms != s.stack or mf != s.frames):
             bad = 'stack/frames real=%d/%d model=%d/%d' % (s.stack, s.frames, ms, mf)
-        if bad is None and minv != 1:
+        if bad is None and minv == 0:
             bad = 'model invariant false'
         ex = excess(s.live)
         if bad is None and (ex > prev_ex) != (mleak == 1):
@@ -481,10 +481,16 @@ class Runner:
         self.leak_ops = collections.Counter()
         self.unsupported = collections.Counter()
 
-    def one(self, name, src_text, asan=False, max_steps=20000):
-        """compile + trace + model.  -> dict.  Text starting with '.' is NanoISA assembly, anything else nano source."""
+    def one(self, name, src_text, asan=False, max_steps=20000, src_path=None):
+        """compile + trace + model.  -> dict.  Text starting with '.' is NanoISA assembly, anything else nano source.
+        src_path: compile that file in place (repository programs with relative imports) instead of a scratch copy."""
         h = hashlib.sha1(src_text.encode()).hexdigest()[:12]
-        if src_text.lstrip().startswith('.'):
+        if src_path:
+            src = src_path; nvm = os.path.join(SCR, '%s_%s.nvm' % (name, h))
+            ok, msg = compile_nvm(self.b, src, nvm)
+            if not ok:
+                return dict(name=name, status='nocompile', msg=msg, src=src)
+        elif src_text.lstrip().startswith('.'):
             src = nvm = os.path.join(SCR, '%s_%s.asm' % (name, h))
             open(src, 'w').write(src_text)
         else:
@@ -612,13 +618,13 @@ def run(ck):
     for p in sorted(glob.glob(os.path.join(CORPUS, '*.nano')) + glob.glob(os.path.join(CORPUS, '*.asm'))):
         progs.append(('corpus_' + os.path.splitext(os.path.basename(p))[0], open(p).read(), 'corpus'))
     # 2. generated, aliasing-biased; two thirds without the constructs that are known to leak
-    n = 1200 if ck.thorough else 300
+    n = 1000 if ck.thorough else 300
     feats = collections.Counter()
     for i in range(n):
         g = Gen(ck.rng, leaky=(i % 3 == 2))
         progs.append(('gen%04d' % i, g.program(), 'gen-leaky' if g.leaky else 'gen'))
         feats.update(g.feat)
-    na = 1000 if ck.thorough else 200
+    na = 800 if ck.thorough else 200
     for i in range(na):
         g = AsmGen(ck.rng, leaky=(i % 3 == 2))
         progs.append(('asm%04d' % i, g.program(), 'asm-leaky' if g.leaky else 'asm'))
@@ -636,6 +642,21 @@ def run(ck):
         if res['status'] == 'ran' and not res.get('mismatch') and len(ck.cov['samples']) < 3 and res['steps']:
             s = res['steps'][min(len(res['steps']) - 1, 30)]
             ck.sample(dict(program=name, steps=len(res['steps']), step=s.iline, real_state=str(s.live)[:200], compared=res['compared']))
+    # 2b. the repository's own programs (thorough): audited on the real VM; replayed on the model as far as it is modelled
+    if ck.thorough:
+        rp = sorted(glob.glob(os.path.join(vlib.REPO, 'tests', '*.nano')) + glob.glob(os.path.join(vlib.REPO, 'tests', '*', '*.nano')) +
+                    glob.glob(os.path.join(vlib.REPO, 'examples', '**', '*.nano'), recursive=True))
+        def rwork(pth):
+            try:
+                txt = open(pth, errors='replace').read()
+            except OSError:
+                return None
+            return pth, txt, R.one('repo_' + re.sub(r'\W', '_', os.path.relpath(pth, vlib.REPO))[:80], txt, src_path=pth)
+        with ThreadPoolExecutor(14) as ex:
+            rres = [x for x in ex.map(rwork, rp) if x]
+        for pth, txt, res in rres:
+            judge(ck, R, res, txt, 'repo:' + os.path.relpath(pth, vlib.REPO))
+        ck.extra['repo_programs'] = len(rres)
     # 3. churn family
     churn_check(ck, R)
     # 4. replay open known findings on the real code
@@ -665,7 +686,11 @@ def run(ck):
                        'ref_count < 2^32 (no wrap: a reference occupies >= 16 bytes of VM memory)',
                        'string contents abstracted to a key: two strings get the same key iff byte-equal (computed by the probe from the real strings)',
                        'hashmap opcodes, element-wise array arithmetic and FFI results other than strings/scalars are outside the model (audited on the real VM, not replayed)',
-                       'C recursion depth of vm_release is not modelled (C13)']
+                       'C recursion depth of vm_release is not modelled (C13)',
+                       'STORE_LOCAL/STORE_GLOBAL/ARR_SET/STRUCT_SET: the C code releases the old slot value and then overwrites the slot; the model '
+                       'swaps the new value in and then releases the old one (same result whenever Inv holds: the slot owner is pinned by the popped reference)',
+                       'the instruction stream (opcodes, operands, indices, callee arity/local_count, string content keys, extern-call success) is an INPUT of the '
+                       'model run, taken from the real VM: the model decides ownership only, not control flow or arithmetic']
 
 
 def replay(ck, d):
